@@ -589,11 +589,14 @@ def base_pel_specs():
         'ED': {'t': 'ED', 'creator': 'B', 'comp': 0x0100, 'payload': bytes(range(40, 60)).hex()},
         'DH': {'t': 'DH', 'payload': bytes(range(16)).hex()},
         'ZZ': {'t': 'ZZ', 'payload': '00112233'},
+        # served by the shipped plug-ins (hardware diagnostics signature list, I/O drawer ILOG)
+        'UDhw': {'t': 'UD', 'comp': 0xE500, 'sub': 1, 'ver': 1, 'payload': ((2).to_bytes(4, 'big') + bytes(range(1, 25))).hex()},
+        'EDio': {'t': 'ED', 'creator': 'M', 'comp': 0x2C00, 'sub': 73, 'ver': 1, 'payload': '8ADF0F19010000DE' '00010002E0040000'},
     }
     out = []
     for i, (k, s) in enumerate(secs.items()):
         out.append({'eid': 0x50000100 + i, 'plid': 0x50000100 + i, 'sections': [s]})
-    everything = [secs[k] for k in ('PSc', 'EH', 'MT', 'LP', 'UDj', 'UDh', 'ED', 'SS', 'UDt', 'ZZ')]
+    everything = [secs[k] for k in ('PSc', 'EH', 'MT', 'LP', 'UDj', 'UDhw', 'UDh', 'ED', 'SS', 'UDt', 'ZZ')]
     out.append({'eid': 0x500001FF, 'plid': 0x500001FF, 'sections': everything})
     return copy.deepcopy(out)
 
